@@ -220,6 +220,7 @@ func wcChild(a []string) string {
 			}
 			for i := 0; i < n; i++ {
 				wg.Add(1)
+				i := i // (module go version 1.18: the loop variable is shared between iterations)
 				go func() {
 					defer wg.Done()
 					for j := 0; j < 20; j++ {
